@@ -159,9 +159,12 @@ def run(ctx):
             continue
         # classify each distinct failure class once per file
         seen = set()
+        # a file that *starts* with epochs outside the recognised range is rejected as a whole (no message is found in block
+        # zero), so its in-range lines are not recognised either: same known finding
+        first_out = t.zone == "epoch" and want and not (dtcat.EPOCH_MIN <= want[0] // gen.NS <= dtcat.EPOCH_MAX)
         for i, w, g in bad:
             sec = w // gen.NS
-            if t.zone == "epoch" and not (dtcat.EPOCH_MIN <= sec <= dtcat.EPOCH_MAX):
+            if t.zone == "epoch" and (not (dtcat.EPOCH_MIN <= sec <= dtcat.EPOCH_MAX) or (first_out and g is None)):
                 sig = "C04|epoch-outside-recognised-range|%s" % t.name
             elif g is None:
                 sig = "C04|line-not-recognised|%s|%s|frac%d|%s" % (t.name, zstyle, fd, case)
